@@ -165,9 +165,9 @@ def _site(world, ev, rq, waiting):
     if closed and ev.command == 'quit':
         return site + '/stream-closed-before-reply'
     if closed and not rq.replied():
-        earlier = world.requests[:world.requests.index(rq)] if rq in world.requests else []
-        if any(r.command == 'quit' for r in earlier):
-            # the operation itself finished; its reply was written after the quit had closed the control stream
+        if any(r.command == 'quit' and r is not rq for r in world.requests):
+            # the operation itself finished; its reply was written after a quit (sent before it, or while it was in
+            # flight) had closed the control stream
             return 'controller.send_response/waiting-request-dispatched-after-completed-quit'
     return site
 
